@@ -353,7 +353,7 @@ def profile_c(rng, tier, cfgs):
         mag = rng.choice(['uL-mL', 'mL-L'])
     else:
         mag = rng.choice(['uL-mL', 'mL-L', 'uL-mL'])
-    p = {'op_w': dict(BASE_OPS, hold_slice=0, solution=0.6, solution_from=0.3, drain_fresh=0.8), 'magnitude': mag, 'round_numbers': rng.random() < 0.6,
+    p = {'op_w': dict(BASE_OPS, hold_slice=0, solution=0.6, solution_from=0.3, drain_fresh=1.6), 'magnitude': mag, 'round_numbers': rng.random() < 0.6,
          'plate_size': 'small', 'cache_policy': 'never',
          # far from every feasibility boundary: far_in, far_out, negative, zero only
          # plus requests a little (1e-3 relative) inside / outside the source boundary: far above every replica's rounding,
